@@ -1,6 +1,7 @@
 -------------------------------- MODULE Trace_Group --------------------------------
 (* Stateless validation of recorded results of numqi.group (code -> spec).  One event per TLC run section:
      table     : a Cayley table built by the library, its left-regular form (as permutations) and the group it claims to be
+     classes   : the conjugacy classes reported by get_character_and_class = the classes computed from the table
      irreps    : dimensions (and integer characters where all characters are rational) of the irreducible blocks
      pcount    : get_sym_group_num_irrep(N)
      partitions: get_sym_group_young_diagram(N)
@@ -30,6 +31,7 @@ Valid(e) ==
                                 /\ inv.order = ex.order /\ inv.profile = ex.profile /\ (Abelian(T) <=> ex.abelian)
     [] e.op = "regular" -> \E T \in {e.T} : IsGroup(T) /\ LeftRegularOK(T, e.perm)                                          \* a left-regular form of any table
     [] e.op = "irreps" -> IrrepsOK(e)
+    [] e.op = "classes" -> \E T \in {e.T} : {{e.classes[i][k] : k \in 1..Len(e.classes[i])} : i \in 1..Len(e.classes)} = Classes(T)       \* get_character_and_class: the conjugacy classes
     [] e.op = "pcount" -> e.p = PT[e.N + 1]
     [] e.op = "partitions" -> \E S \in {Parts(e.N, e.N)} : Len(e.rows) = Cardinality(S) /\ {StripZeros(e.rows[i]) : i \in 1..Len(e.rows)} = S /\ Cardinality(S) = PT[e.N + 1]
     [] e.op = "hook" -> e.f = F(e.shape)
